@@ -2,6 +2,7 @@ import JsonVerif.Lemmas.Leaf
 import JsonVerif.Lemmas.Steps
 import JsonVerif.Lemmas.ObjOps
 import JsonVerif.Model.Entry
+import JsonVerif.Lemmas.Hub
 /-!
 # C02 — Faithful decoding: the parsed value is the document's abstract content
 
@@ -14,10 +15,21 @@ return exactly the values of the entries carrying that key, in source order.
 namespace JsonVerif.C02
 open JsonVerif Obj
 
-/-- Full statement (not yet proved; needs the parser-vs-grammar theorem): `DocOf v text` = "text is
-    one JSON value denoting v, surrounded by whitespace". -/
-def C02_full (DocOf : JValue → List Char → Prop) : Prop :=
-  ∀ cs v cm, parseStr ⟨false, false⟩ cs = .ok (v, cm) → DocOf v cs
+/-- **The parsed value is the document's content**: `GDoc text v` (Spec/Grammar.lean) assigns to a
+    JSON-text its abstract content — items and members in source order, duplicates kept, strings
+    as the characters their `char` productions denote (two-character escapes, `\uXXXX`, surrogate
+    pairs combined), numbers as their spelling, literals as themselves. Whatever the strict parser
+    returns is that content … -/
+theorem C02_value_is_content (cs : List Char) (v : JValue) (cm : List CMEntry)
+    (h : parseStr ⟨false, false⟩ cs = .ok (v, cm)) : GDoc cs v := parse_sound h
+
+/-- … every valid document is parsed to its content, under every option record … -/
+theorem C02_content_is_parsed (o : ParseOptions) (cs : List Char) (v : JValue) (h : GDoc cs v) :
+    ∃ cm, parseStr o cs = .ok (v, cm) := parse_complete o h
+
+/-- … and that content is unique, so "the document's abstract content" is well defined. -/
+theorem C02_content_unique (cs : List Char) (v v' : JValue) (h : GDoc cs v) (h' : GDoc cs v') :
+    v = v' := gdoc_unique h h'
 
 /-- **Numbers byte-for-byte, unlimited precision**: in every context and under every option record
     the number value returned by the lexer is exactly the sequence of characters it consumed — no
